@@ -4,6 +4,7 @@ import numpy as np
 from mc import registry as R
 from mc import traj
 from mc.drivers import c01
+from mc.ref import cert as RC
 from mc.ref import pen as RP
 
 PROPERTY = "C03"
@@ -60,7 +61,100 @@ def plan(tier, seed):
     tasks.append(dict(op="reweighted", weight=3))
     for p0 in (1, 2):
         tasks.append(dict(op="deep", p0=p0, weight=3))
+    for sname in ("AndersonCD", "GroupBCD", "MultiTaskBCD"):
+        for part in range(2):
+            tasks.append(dict(op="acc_family", solver=sname, part=part, weight=4))
     return tasks
+
+
+# ----------------------------------------------------------------- extrapolation bookkeeping on larger correlated designs
+#
+# Working sets that grow, shrink and move need more features than the 3-5 of the shared alphabet: a fixed family of AR(1)-correlated
+# designs (n x p in {5x6, 8x12}, generator seeds 0..9, a fixed finite alphabet) x strengths x p0 in {1,2,3} x epochs {6,12}; every
+# budget column max_iter = 1..7 is a trajectory.  Oracles: descent along the column, never above the start, and the caller's model-fit
+# buffer equals X w on return (what a mis-kept extrapolation buffer breaks first).
+
+def corr_design(seed, n, p, T):
+    rng = np.random.RandomState(seed)
+    Z = rng.randn(n, p)
+    for j in range(1, p):
+        Z[:, j] = 0.8 * Z[:, j - 1] + 0.6 * Z[:, j]
+    Wt = np.zeros((p, max(T, 1)))
+    for j in rng.choice(p, max(2, p // 5), replace=False):
+        Wt[j] = rng.randn(max(T, 1)) * 2
+    Y = Z @ Wt + 0.3 * rng.randn(n, max(T, 1))
+    Z, Y = np.round(Z * 64) / 64, np.round(Y * 64) / 64            # exact in binary
+    return Z, (Y if T else Y[:, 0])
+
+
+def acc_family_comps(task, tier):
+    sname = task["solver"]
+    shapes = ((5, 6), (8, 12))
+    seeds = range(10) if tier != "quick" else range(6)
+    for (n, p) in shapes:
+        for seed in seeds:
+            if seed % 2 != task["part"]:
+                continue
+            T = 2 if sname == "MultiTaskBCD" else 0
+            X, y = corr_design(seed, n, p, T)
+            G = np.linalg.norm(X.T @ y, axis=1) if T else np.abs(X.T @ y)
+            amax = float(np.max(G)) / n
+            for rho in (0.1, 0.02):
+                if sname == "AndersonCD":
+                    dspec, ps = dict(name="Quadratic"), dict(name="L1", alpha=rho * amax, positive=False)
+                elif sname == "GroupBCD":
+                    ptr, ind = list(range(0, p + 1, 2)), list(range(p))
+                    dspec = dict(name="QuadraticGroup", grp_ptr=ptr, grp_indices=ind)
+                    ps = dict(name="WeightedGroupL2", alpha=rho * amax, weights=[1.0] * (p // 2), grp_ptr=ptr, grp_indices=ind, positive=False)
+                else:
+                    dspec, ps = dict(name="QuadraticMultiTask"), dict(name="L2_1", alpha=rho * amax)
+                for p0 in (1, 2, 3):
+                    for me in (6, 12):
+                        kw = dict(p0=p0, max_epochs=me, tol=1e-14, fit_intercept=False)
+                        yield dict(solver=dict(name=sname, kw=kw), datafit=dspec, penalty=ps, X=X.tolist(), y=y.tolist(), storage="denseF",
+                                   xid=f"corr{n}x{p}s{seed}", w_init=(np.zeros((p, T)) if T else np.zeros(p)).tolist())
+
+
+def exec_acc_column(comp, ks=(1, 2, 3, 4, 5, 6, 7)):
+    from mc import comp as C
+    out, objs = [], {}
+    f0 = C.objective(comp, np.array(comp["w_init"], dtype=float))
+    prob = C.problem_of(comp)
+    for k in ks:
+        c = dict(comp, solver=dict(comp["solver"], kw=dict(comp["solver"]["kw"], max_iter=k)))
+        r = C.execute(c)
+        if r["status"] != "ok":
+            out.append(("exception", k, r["exc"]["type"] + ": " + r["exc"]["message"][:80], "solve succeeds"))
+            continue
+        w = r["w"]
+        f = C.objective(c, w)
+        objs[k] = f
+        u = RC.linear_predictor(prob, w)
+        err = float(np.max(np.abs(u - r["Xw_buf"])))
+        if err > 1e-9 * (1 + float(np.max(np.abs(u)))):
+            out.append(("fit_buffer_inconsistent", k, err, "== X w"))
+        if f > f0 + tolerance(f0):
+            out.append(("above_start", k, f - f0, "<= 0"))
+        if k - 1 in objs and f > objs[k - 1] + tolerance(objs[k - 1]):
+            out.append(("objective_increased", k, f - objs[k - 1], "<= 0"))
+        if r["stop_crit"] <= 1e-14:
+            break
+    return out, objs
+
+
+def run_acc_family(task, ctx):
+    n = 0
+    for comp in acc_family_comps(task, ctx.tier):
+        v, objs = exec_acc_column(comp)
+        n += 1
+        ctx.states += len(objs)
+        ctx.transitions += max(0, len(objs) - 1)
+        ctx.count("acc_family_columns")
+        ctx.obs(list(objs.values()), nontrivial=len(objs) > 1, n=max(1, len(objs)))
+        for kind, k, got, exp in v:
+            ctx.violation(f"solver:{task['solver']}.extrapolation", kind, dict(op="acc_column", comp=comp), dict(k=k, value=got), exp,
+                          where=dict(solver=task["solver"], family="correlated"))
+    ctx.sample(dict(op="acc_family", solver=task["solver"], columns=n))
 
 
 def deep_comps(task, tier):
@@ -184,6 +278,8 @@ def where_of(comp, at):
 
 
 def run(task, ctx):
+    if task["op"] == "acc_family":
+        return run_acc_family(task, ctx)
     from mc import comp as C
     if task["op"] == "reweighted":
         return run_reweighted(task, ctx)
@@ -296,6 +392,10 @@ def exec_reweighted(params):
 
 
 def replay(params):
+    if params.get("op") == "acc_column":
+        from mc.core import fhex
+        v, objs = exec_acc_column(params["comp"])
+        return dict(violated=bool(v), kinds=sorted({x[0] for x in v}), detail=fhex([[x[0], x[1], x[2]] for x in v[:6]]), objs=fhex(list(objs.values())))
     from mc import comp as C
     from mc.core import fhex
     if params["op"] == "reweighted":
@@ -317,5 +417,8 @@ def describe(tier, agg):
             "(one real solve); transitions are the validated prefix edges; true objective non-increasing on every edge and "
             "never above the start; IterativeReweightedL1: loss_history_ non-increasing, of length n_reweights, last entry == "
             "objective; plus 'deep' columns k in 0..12 at e in {7,14} with p0 in {1,2} on correlated designs (working sets smaller "
-            "than the support, zero weights, warm starts); distinct = trajectories with > 2 distinct iterates")
-    return rule, {"trajectories": 300, "accepted_extrapolations": 1, "reweighted_runs": 50}
+            "than the support, zero weights, warm starts); plus the extrapolating solvers (AndersonCD, GroupBCD, MultiTaskBCD) on a fixed "
+            "family of AR(1)-correlated 5x6 / 8x12 designs x 2 strengths x p0 in {1,2,3} x epochs {6,12}, columns max_iter = 1..7 "
+            "(working sets that grow, shrink and move): descent, never above the start, model-fit buffer == X w on return; "
+            "distinct = trajectories with > 2 distinct iterates")
+    return rule, {"trajectories": 300, "accepted_extrapolations": 1, "reweighted_runs": 50, "acc_family_columns": 200}
